@@ -76,6 +76,50 @@ func (f *FuncInfo) EdgeFacts(b *cfg.Block, succ int) []Fact {
 	return Decompose(c, succ == 0)
 }
 
+// EdgeAlternatives returns the disjunctive form of what taking successor `succ` of block b implies:
+// one of the returned conjunctions of atomic facts holds. (go/cfg does not split && and ||, so the
+// true edge of `a || b` carries the two alternatives [a], [b].)
+func (f *FuncInfo) EdgeAlternatives(b *cfg.Block, succ int) [][]Fact {
+	c := f.BranchCond(b)
+	if c == nil {
+		return nil
+	}
+	return Disjuncts(c, succ == 0)
+}
+
+// EdgesImplying lists the conditional edges on which, whichever alternative holds, some fact accepted
+// by match holds: the edge implies the disjunction of the accepted facts.
+func (f *FuncInfo) EdgesImplying(match func(Fact) bool) func(*cfg.Block, int) bool {
+	cache := map[*cfg.Block][2]bool{}
+	return func(b *cfg.Block, s int) bool {
+		if s > 1 {
+			return false
+		}
+		v, ok := cache[b]
+		if !ok {
+			for i := 0; i < 2; i++ {
+				alts := f.EdgeAlternatives(b, i)
+				v[i] = len(alts) > 0
+				for _, alt := range alts {
+					some := false
+					for _, ft := range alt {
+						if match(ft) {
+							some = true
+							break
+						}
+					}
+					if !some {
+						v[i] = false
+						break
+					}
+				}
+			}
+			cache[b] = v
+		}
+		return v[s]
+	}
+}
+
 // Decompose splits a condition with a known truth value into atomic facts:
 // (a && b)=true gives a=true,b=true; (a || b)=false gives a=false,b=false; !a flips.
 func Decompose(e ast.Expr, truth bool) []Fact {
@@ -112,6 +156,15 @@ func Disjuncts(e ast.Expr, truth bool) [][]Fact {
 
 // GuardEdges returns a predicate on edges: the edge implies some fact for which match returns true.
 func (f *FuncInfo) GuardEdges(match func(Fact) bool) func(*cfg.Block, int) bool {
+	// an edge implies a matching fact when every alternative of its disjunctive form contains one:
+	// for plain conditions and conjunctions this is "some conjunct matches"; the true edge of
+	// `a || b` implies the fact only if both a and b do
+	// (matchers written against the undivided condition keep working: the conjunctive reading is tried too)
+	alt, conj := f.EdgesImplying(match), f.guardEdgesConj(match)
+	return func(b *cfg.Block, s int) bool { return conj(b, s) || alt(b, s) }
+}
+
+func (f *FuncInfo) guardEdgesConj(match func(Fact) bool) func(*cfg.Block, int) bool {
 	cache := map[*cfg.Block][2]int8{}
 	return func(b *cfg.Block, s int) bool {
 		if s > 1 {
@@ -202,11 +255,29 @@ func NormCmp(ft Fact) (Cmp, bool) {
 		l, r, op = r, l, token.LSS
 	case token.GEQ:
 		l, r, op = r, l, token.LEQ
-	case token.EQL, token.NEQ, token.LSS, token.LEQ:
+	case token.EQL, token.NEQ:
+		// symmetric operators: a literal operand (nil, 0, "x") goes to the right, so that
+		// `nil == p` and `p == nil` are the same comparison
+		if literalLike(l) && !literalLike(r) {
+			l, r = r, l
+		}
+	case token.LSS, token.LEQ:
 	default:
 		return Cmp{}, false
 	}
 	return Cmp{L: ast.Unparen(l), R: ast.Unparen(r), Op: op}, true
+}
+
+func literalLike(e ast.Expr) bool {
+	switch x := ast.Unparen(e).(type) {
+	case *ast.BasicLit:
+		return true
+	case *ast.Ident:
+		return x.Name == "nil" || x.Name == "true" || x.Name == "false"
+	case *ast.UnaryExpr:
+		return (x.Op == token.SUB || x.Op == token.ADD) && literalLike(x.X)
+	}
+	return false
 }
 
 // ConstVal returns the constant value of e, if it is a typed or untyped constant expression.
